@@ -279,7 +279,9 @@ fn main() {
         // 2. schedules
         if cli.small {
             // under Miri the interpreter's own scheduler (one seed per process) explores the interleavings
-        } else if good && small && sc.shards <= 3 && ncand <= 2 && ncand >= 1 {
+        } else if good && small && sc.shards <= 3 && ncand <= 2 && ncand >= 1 && ctl.gate_timeouts.load(std::sync::atomic::Ordering::SeqCst) < 3 {
+            // (after three abandoned scripts in this process the scripted schedules are given up: the commands the scripts
+            // wait for are evidently not the commands this store issues; the floor on gated executions then reports it)
             let mut scripts = vec![];
             for w in worker_interleavings(&vec![ncand; sc.shards]) {
                 if sc.owned {
